@@ -79,9 +79,15 @@ def valid_core(xml_bytes):
 
 
 def reopen(prs):
+    import warnings
     from pptx import Presentation
 
-    b = io.BytesIO(); prs.save(b)
+    b = io.BytesIO()
+    with warnings.catch_warnings():
+        # an "other-reltype" start deck keeps the producer's core.xml reachable beside the default part of the same name;
+        # the library writes both (the values read back are the assigned ones - what this property is about)
+        warnings.filterwarnings("ignore", "Duplicate name")
+        prs.save(b)
     data = b.getvalue()
     return Presentation(io.BytesIO(data)), data
 
@@ -93,6 +99,44 @@ def with_core_xml(base, xml):
         for it in zin.infolist():
             z.writestr(it, xml if it.filename == "docProps/core.xml" else zin.read(it.filename))
     return out.getvalue()
+
+
+_BASE = []
+
+
+def start_deck(ctx, rng):
+    """the deck a history starts from, and what its core properties must read before anything is assigned: the default
+    template, or the same package as other producers write its package relationships - an absolute Target for the
+    core-properties relationship (System.IO.Packaging writers), or core.xml related under another relationship type (the
+    ECMA-376 first-edition URI), which the library documents as 'no core properties': the default part on first access"""
+    from pptx import Presentation
+
+    if not _BASE:
+        p = Presentation()
+        p.core_properties.title = "Producer title"; p.core_properties.author = "Producer"; p.core_properties.revision = 41
+        b = io.BytesIO(); p.save(b); _BASE.append(b.getvalue())
+    kind = rng.choice(["template", "template", "absolute-target", "absolute-target", "other-reltype"])
+    ctx.count("start-deck-" + kind)
+    if kind == "template":
+        return Presentation(), {}, kind
+    zin = zipfile.ZipFile(io.BytesIO(_BASE[0]))
+    out = io.BytesIO()
+    with zipfile.ZipFile(out, "w", zipfile.ZIP_DEFLATED) as z:
+        for it in zin.infolist():
+            data = zin.read(it.filename)
+            if it.filename == "_rels/.rels":
+                if kind == "absolute-target":
+                    data = data.replace(b'Target="docProps/core.xml"', b'Target="/docProps/core.xml"')
+                    if rng.random() < 0.5:
+                        data = data.replace(b'Target="docProps/app.xml"', b'Target="/docProps/app.xml"')
+                else:
+                    data = data.replace(b"/package/2006/relationships/metadata/core-properties", b"/officedocument/2006/relationships/metadata/core-properties")
+                assert data != zin.read(it.filename)
+            z.writestr(it, data)
+    prs = Presentation(io.BytesIO(out.getvalue()))
+    if kind == "absolute-target":
+        return prs, {"title": "Producer title", "author": "Producer", "revision": 41}, kind
+    return prs, {"title": "PowerPoint Presentation", "last_modified_by": "python-pptx", "revision": 1}, kind
 
 
 def correspond(ctx):
@@ -107,9 +151,11 @@ def correspond(ctx):
 
     n_hist = 25 if ctx.quick else 400
     for _ in range(n_hist):
-        prs = Presentation()
+        prs, expect, start = start_deck(ctx, rng)
         cp = prs.core_properties
-        expect = {}
+        for k, v in expect.items():
+            if getattr(cp, k) != v:
+                ctx.fail("start-deck-read:" + start, f"a deck whose core properties ({start}) hold {k} = {v!r} reads {getattr(cp, k)!r}", {"prop": k, "start": start})
         for _ in range(rng.randint(3, 12)):
             kind = rng.random()
             if kind < 0.55:
